@@ -803,3 +803,134 @@ Print Assumptions c07_concrete_report_creation_date.
 Print Assumptions c07_concrete_written_bytes_show_back.
 Print Assumptions c07_created_creation_date_row.
 Print Assumptions c07_calendar_examples.
+
+(* ====================================================================================================== *)
+(** * the url crate made concrete (X14)
+
+    Until X14 [host_disp] and [url_norm] were universally quantified in every statement above (and nothing was assumed of
+    them). Model/UrlConcrete.v gives the instances: [c_url_norm] = X10's model of `Url::parse` + Display
+    (Model/UrlNorm.v), [c_host_disp] = X9's model of `Host::parse` - of `[text]` when the text contains a colon - followed
+    by Display (Model/UrlHost.v); [c_show] is [show_concrete] at these instances: `torrent show` with no library variable
+    left. Outside the modelled fragments (non-ASCII / IDNA hosts, `file:` URLs, URLs without `//`) the instances refuse,
+    and [value_in_fragment v] says that the decoded file [v] holds no such text; the correspondence run compares [c_show]
+    with the real binary on the files that satisfy it (tools/props/c07.py, "urlconcrete"). *)
+From Imdl Require Import Model.HostPort Model.UrlHost Model.UrlNorm Model.UrlConcrete
+  Proofs.UrlConcreteProofs Proofs.UrlConcreteUses.
+
+(** show prints update_url and dht_nodes as the normal form of what the file says: the update URL shown is the url crate's
+    normal form [u] of the stored text [s] (and [s] itself when [s] is written in normal form); every node [host, port] is
+    shown as Display of the parsed host, `:` and the port; a printed report never rests on a text outside the fragments *)
+Check c_show_reports : forall src input ih j tab term,
+  c_show src input ih = ShowPrinted j tab term ->
+  exists v rest m,
+    input = encode v ++ rest /\ c_typed_of_value v = Some m /\ value_in_fragment v = true /\
+    jfield j k_update_url_json = jopt_str (m_update_url m) /\
+    jfield j k_dht_nodes_json = JvArr (map JvStr (match m_nodes m with Some l => l | None => [] end)) /\
+    (forall s, get_str k_update_url (info_of v) = Some s ->
+       exists u, u_norm s = Some (Some u) /\ m_update_url m = Some u /\ is_normal_url u = true /\
+                 (is_normal_url s = true -> u = s)) /\
+    (get_str k_update_url (info_of v) = None -> m_update_url m = None) /\
+    (forall l, lookup k_nodes (top_of v) = Some (Lst l) -> exists ts, m_nodes m = Some ts /\ Forall2 node_shown l ts) /\
+    (lookup k_nodes (top_of v) = None -> m_nodes m = None).
+Theorem c07_concrete_show_prints_normal_forms : forall src input ih j tab term,
+  c_show src input ih = ShowPrinted j tab term ->
+  exists v rest m,
+    input = encode v ++ rest /\ c_typed_of_value v = Some m /\ value_in_fragment v = true /\
+    jfield j k_update_url_json = jopt_str (m_update_url m) /\
+    jfield j k_dht_nodes_json = JvArr (map JvStr (match m_nodes m with Some l => l | None => [] end)) /\
+    (forall s, get_str k_update_url (info_of v) = Some s ->
+       exists u, u_norm s = Some (Some u) /\ m_update_url m = Some u /\ is_normal_url u = true /\
+                 (is_normal_url s = true -> u = s)) /\
+    (get_str k_update_url (info_of v) = None -> m_update_url m = None) /\
+    (forall l, lookup k_nodes (top_of v) = Some (Lst l) -> exists ts, m_nodes m = Some ts /\ Forall2 node_shown l ts) /\
+    (lookup k_nodes (top_of v) = None -> m_nodes m = None).
+Proof. exact c_show_reports. Qed.
+
+(** what [node_shown] says, spelled out *)
+Theorem c07_concrete_node_shown : forall nv t,
+  node_shown nv t <->
+  exists h p x, nv = Lst [Str h; Int p] /\ (0 <= p < 65536)%Z /\ u_hparse (hp_rebracket h) = Some (Some x) /\
+                host_in_fragment h = true /\ t = hshow u_std4 u_url6 x ++ [58] ++ dec (Z.to_N p).
+Proof. intros nv t. reflexivity. Qed.
+
+(** a file written in normal form is printed byte for byte: a URL in normal form comes back unchanged, and a host stored as
+    Display prints it (the brackets of an IPv6 literal aside) is shown exactly so *)
+Theorem c07_concrete_normal_form_printed_verbatim :
+  (forall u, is_normal_url u = true -> c_url_norm u = Some u) /\
+  (forall h, (exists t, u_hparse t = Some (Some h)) ->
+     c_host_disp (Metainfo.unbracket (hshow u_std4 u_url6 h)) = Some (hshow u_std4 u_url6 h)) /\
+  (forall t x, c_host_disp t = Some x -> c_host_disp (Metainfo.unbracket x) = Some x) /\
+  (forall t u, c_url_norm t = Some u -> c_url_norm u = Some u).
+Proof. exact (conj c_url_norm_fixed (conj c_host_disp_printed (conj c_host_disp_idempotent c_url_norm_idempotent))). Qed.
+
+(** end to end with create, the url crate concrete on both sides: the two hypotheses "the url crate reads back the hosts
+    and the update URL it printed" of c07_written_bytes_show_back are theorems inside the fragments ... *)
+Theorem c07_concrete_created_texts_read_back :
+  (forall o, forallb (fun n => c_host_ok (Metainfo.unbracket (fst n))) (Metainfo.o_nodes o) = true ->
+     nodes_text c_host_canon c_host_disp o = Some (c_nodes_shown o)) /\
+  (forall o, opt_url_accepted (Metainfo.o_update_url o) = true ->
+     update_text c_norm c_url_norm o = Some (option_map c_norm (Metainfo.o_update_url o))) /\
+  (forall o, opts_in_fragment o = true ->
+     opt_utf8 (option_map c_norm (Metainfo.o_announce o)) = true /\
+     opt_utf8 (option_map c_norm (Metainfo.o_update_url o)) = true /\
+     forallb (fun n => utf8_valid (c_host_canon (Metainfo.unbracket (fst n)))) (Metainfo.o_nodes o) = true).
+Proof. exact (conj c_nodes_text (conj c_update_text c_stored_texts_utf8)). Qed.
+
+(** ... so `show` of the written bytes prints the report of the command line: tracker and update URL in the url crate's
+    normal form of the text given, each DHT node as Display of the host given, `:` and the port *)
+Check c_written_bytes_show_back : forall sfx src o c tb name ih,
+  Metainfo.input_ok (Metainfo.c_input c) = true -> Metainfo.opts_ok o = true ->
+  texts_utf8 c_norm c_host_canon sfx o c = true -> content_shown_ok (Metainfo.o_md5 o) c = true ->
+  c_create_bytes sfx o c = Some tb -> Metainfo.name_of o (Metainfo.c_input c) = Some name ->
+  opts_in_fragment o = true ->
+  let nodes := c_nodes_shown o in
+  let upd := option_map c_norm (Metainfo.o_update_url o) in
+  let len := N.of_nat (List.length tb) in
+  let t := table_of Calendar.cal (requested c_norm sfx o c name nodes upd) (Metainfo.total_size (Metainfo.c_input c)) len ih in
+  c_show src tb ih =
+  ShowPrinted (requested_json c_norm sfx o c name nodes upd len ih) (render_tab t) (render_term human_display t).
+Theorem c07_concrete_written_bytes_show_back_no_url_variable : forall sfx src o c tb name ih,
+  Metainfo.input_ok (Metainfo.c_input c) = true -> Metainfo.opts_ok o = true ->
+  texts_utf8 c_norm c_host_canon sfx o c = true -> content_shown_ok (Metainfo.o_md5 o) c = true ->
+  c_create_bytes sfx o c = Some tb -> Metainfo.name_of o (Metainfo.c_input c) = Some name ->
+  opts_in_fragment o = true ->
+  let nodes := c_nodes_shown o in
+  let upd := option_map c_norm (Metainfo.o_update_url o) in
+  let len := N.of_nat (List.length tb) in
+  let t := table_of Calendar.cal (requested c_norm sfx o c name nodes upd) (Metainfo.total_size (Metainfo.c_input c)) len ih in
+  c_show src tb ih =
+  ShowPrinted (requested_json c_norm sfx o c name nodes upd len ih) (render_tab t) (render_term human_display t).
+Proof. exact c_written_bytes_show_back. Qed.
+
+(** instances: a file whose update URL has an upper-case scheme and host, a default port and a dot segment and whose nodes
+    are an IPv6 literal in a long spelling, an IPv4-mapped address as std prints it, an upper-case domain and a hexadecimal
+    IPv4 address is shown in normal form; written in normal form it is shown byte for byte; a node host the url crate refuses
+    or an update URL it cannot parse make the loader refuse the file; a punycode host is outside the fragment *)
+Definition x14_file (upd : bytes) (hosts : list bytes) : bytes :=
+  encode (Dict [ (k_info, Dict [ (k_length, Int 5); (k_name, Str (lit "n")); (k_piece_length, Int 16384); (k_pieces, Str (repeat 0 20));
+                                 (k_update_url, Str upd) ]);
+                 (k_nodes, Lst (map (fun h => Lst [Str h; Int 6881]) hosts)) ]).
+
+Example c07_concrete_show_instances :
+  c_show_fields (x14_file (lit "HTTPS://Example.COM:443/feed/../x y?q#f")
+                          [lit "2001:DB8:0:0:0:0:0:1"; lit "::ffff:1.2.3.4"; lit "Router.Example.ORG"; lit "0x7f.1"]) =
+    Some (Some (lit "https://example.com/x%20y?q#f"),
+          [lit "[2001:db8::1]:6881"; lit "[::ffff:102:304]:6881"; lit "router.example.org:6881"; lit "127.0.0.1:6881"]) /\
+  input_in_fragment (x14_file (lit "HTTPS://Example.COM:443/feed/../x y?q#f") [lit "2001:DB8:0:0:0:0:0:1"; lit "0x7f.1"]) = true /\
+  c_show_fields (x14_file (lit "udp://tracker.example:1337/announce") [lit "2001:db8::1"; lit "router.example.org"; lit "127.0.0.1"]) =
+    Some (Some (lit "udp://tracker.example:1337/announce"),
+          [lit "[2001:db8::1]:6881"; lit "router.example.org:6881"; lit "127.0.0.1:6881"]) /\
+  is_normal_url (lit "udp://tracker.example:1337/announce") = true /\
+  c_show_fields (x14_file (lit "http://h:65536/") []) = None /\ c_show_fields (x14_file (lit "http://h/") [lit "a b"]) = None /\
+  c_show_fields (x14_file (lit "http://h/") [lit "1:2"]) = None /\
+  input_in_fragment (x14_file (lit "http://h:65536/") [lit "a b"; lit "1:2"]) = true /\
+  input_in_fragment (x14_file (lit "http://h/") [lit "xn--bcher-kva.example"]) = false /\
+  input_in_fragment (x14_file (lit "mailto:x") []) = false.
+Proof. vm_compute. repeat split; reflexivity. Qed.
+
+Print Assumptions c07_concrete_show_prints_normal_forms.
+Print Assumptions c07_concrete_node_shown.
+Print Assumptions c07_concrete_normal_form_printed_verbatim.
+Print Assumptions c07_concrete_created_texts_read_back.
+Print Assumptions c07_concrete_written_bytes_show_back_no_url_variable.
+Print Assumptions c07_concrete_show_instances.
